@@ -54,6 +54,11 @@ def ClSingle (fs : List Field) : Prop := ∀ f ∈ fs, ∀ g ∈ fs, f.1 = nCont
 def ClNumeric (fs : List Field) : Prop :=
   ∀ f ∈ fs, f.1 = nContentLength → f.2 ≠ [] ∧ ∀ b ∈ f.2, isDigitByte b = true
 def SizeOk (limit : Int) (fs : List Field) : Prop := sectionSize fs ≤ limit
+/-- value of a decimal digit string -/
+def decimalValue (s : List Nat) : Nat := s.foldl (fun a d => a * 10 + (d - 48)) 0
+/-- net/http carries Content-Length as an int64 (Request.ContentLength / Response.ContentLength, -1 =
+    unknown): a value that does not fit a non-negative int64 cannot be handed over faithfully -/
+def ClRange (fs : List Field) : Prop := ∀ f ∈ fs, f.1 = nContentLength → decimalValue f.2 < 2 ^ 63
 
 instance (fs) : Decidable (NameTokens fs) := by unfold NameTokens; infer_instance
 instance (fs) : Decidable (ValueBytes fs) := by unfold ValueBytes; infer_instance
@@ -65,6 +70,7 @@ instance (fs) : Decidable (PseudoUnique fs) := by unfold PseudoUnique; infer_ins
 instance (fs) : Decidable (ClSingle fs) := by unfold ClSingle; infer_instance
 instance (fs) : Decidable (ClNumeric fs) := by unfold ClNumeric; infer_instance
 instance (l fs) : Decidable (SizeOk l fs) := by unfold SizeOk; infer_instance
+instance (fs) : Decidable (ClRange fs) := by unfold ClRange; infer_instance
 
 /-- A header section that is safe to hand to net/http (the property's first sentence). -/
 structure WellFormed (isReq : Bool) (limit : Int) (fs : List Field) : Prop where
@@ -77,6 +83,7 @@ structure WellFormed (isReq : Bool) (limit : Int) (fs : List Field) : Prop where
   pseudo_unique : PseudoUnique fs
   cl_single : ClSingle fs
   cl_numeric : ClNumeric fs
+  cl_range : ClRange fs
   size_ok : SizeOk limit fs
 
 /-- names of the clauses that fail (what the oracle's monitor reports) -/
@@ -90,6 +97,7 @@ def failingClauses (isReq : Bool) (limit : Int) (fs : List Field) : List String 
   (if decide (PseudoUnique fs) then [] else ["pseudo_unique"]) ++
   (if decide (ClSingle fs) then [] else ["cl_single"]) ++
   (if decide (ClNumeric fs) then [] else ["cl_numeric"]) ++
+  (if decide (ClRange fs) then [] else ["cl_range"]) ++
   (if decide (SizeOk limit fs) then [] else ["size"])
 
 /-- A trailer section (RFC 9114 §4.1: no pseudo-header fields; RFC 9110 §6.5.1 forbids fields needed
